@@ -254,14 +254,20 @@ ATTRS = ["fullslot", "description", "keywords", "use", "iuse", "eapi", "license"
 def write_src_pkg(root, cat, pf, variant, slot, rng_tag):
     d = os.path.join(root, cat, pf)
     os.makedirs(d)
+    eapi = "5" if variant == "C" else "8"
     files = {
-        "SLOT": slot + "\n", "EAPI": "8\n", "DESCRIPTION": f"{pf} build {variant} {rng_tag}\n", "KEYWORDS": "amd64 ~arm64\n",
+        "SLOT": slot + "\n", "EAPI": eapi + "\n", "DESCRIPTION": f"{pf} build {variant} {rng_tag}\n", "KEYWORDS": "amd64 ~arm64\n",
         "USE": ("foo\n" if variant == "A" else "foo bar\n"), "IUSE": "foo bar\n", "RDEPEND": "dev-libs/x\n" if variant == "A" else "dev-libs/x dev-libs/y\n",
         "DEPEND": "virtual/pkgconfig\n", "LICENSE": "GPL-2\n", "DEFINED_PHASES": "install\n", "CHOST": "x86_64-pc-linux-gnu\n",
         "HOMEPAGE": "https://example.org/" + pf + "\n", "repository": "gentoo\n",
         "CONTENTS": f"dir /usr\ndir /usr/bin\nobj /usr/bin/{pf}-{variant} d41d8cd98f00b204e9800998ecf8427e 1700000000\n",
-        pf + ".ebuild": f"# {pf} {variant}\nEAPI=8\nSLOT={slot}\n",
+        pf + ".ebuild": f"# {pf} {variant}\nEAPI={eapi}\nSLOT={slot}\n",
     }
+    if variant == "A":
+        files["PROPERTIES"] = "live\n"
+    if variant == "C":             # a build with fewer / other metadata: no HOMEPAGE, no PROPERTIES, other deps
+        del files["HOMEPAGE"]
+        files["RDEPEND"] = "dev-libs/z\n"
     for k, v in files.items():
         with open(os.path.join(d, k), "w") as f:
             f.write(v)
@@ -270,7 +276,8 @@ def write_src_pkg(root, cat, pf, variant, slot, rng_tag):
 
 
 class World:
-    """source packages (two variants of each cpv) + scratch space"""
+    """source packages (variants A, B: same attribute set, different values; C: an EAPI-5 build with fewer tracked
+    attributes and no NEEDED file) + scratch space"""
     CPVS = [("dev-util", "foo-1.0", "0"), ("dev-util", "foo-1.0-r1", "0"), ("dev-util", "foo-2.0_rc1", "2"), ("dev-util", "foo-10.1.2", "2/2.1"),
             ("dev-util", "bar-baz-0.9", "0"), ("sys-apps", "libx-3", "3")]
 
@@ -292,7 +299,10 @@ class World:
         with open(os.path.join(img, "etc", "tool.conf"), "w") as f:
             f.write("x=1\n")
         cset = scan(img, offset=img)
-        for variant in ("A", "B"):
+        self.domain_plain = types.SimpleNamespace(pm_tmpdir=os.path.join(self.root, "pmtmp-plain"))
+        os.makedirs(self.domain_plain.pm_tmpdir)
+        self.refs = {}
+        for variant in ("A", "B", "C"):
             sroot = os.path.join(self.root, "src" + variant)
             os.makedirs(sroot)
             os.chmod(sroot, 0o755)
@@ -302,10 +312,26 @@ class World:
                 self.src[(pkg.cpvstr, variant)] = pkg
                 self.src[(pkg.cpvstr, variant, "bin")] = MutatedPkg(pkg, {"contents": cset})
         # a NEEDED file for one package exercises that branch of add_data
-        nd = os.path.join(self.domain.pm_tmpdir, "dev-util", "foo-1.0", "temp")
-        os.makedirs(nd)
-        with open(os.path.join(nd, "NEEDED"), "w") as f:
-            f.write("/usr/bin/foo libc.so.6\n")
+        for pf in ("foo-1.0", "foo-2.0_rc1", "bar-baz-0.9"):
+            nd = os.path.join(self.domain.pm_tmpdir, "dev-util", pf, "temp")
+            os.makedirs(nd)
+            for n in ("NEEDED", "NEEDED.ELF.2")[: 1 if pf == "bar-baz-0.9" else 2]:
+                with open(os.path.join(nd, n), "w") as f:
+                    f.write("/usr/bin/foo libc.so.6\n")
+
+    def domain_for(self, key):
+        return self.domain_plain if key[1] == "C" else self.domain
+
+    def reference(self, kind, key):
+        """a clean install of this build into an empty repository: (file-level entry, attribute view) — what the entry must be"""
+        if (kind, key) not in self.refs:
+            loc = self.fresh_dir()
+            perform(kind, loc, self, "install", None, key)
+            cat, pf = key[0].split("/")
+            raw = raw_category(os.path.join(loc, cat))[pf + (".tbz2" if kind == "binpkg" else "")]
+            self.refs[(kind, key)] = (raw, fresh_view(kind, loc)[key[0]])
+            shutil.rmtree(loc, ignore_errors=True)
+        return self.refs[(kind, key)]
 
     def fresh_dir(self):
         self.n += 1
@@ -370,7 +396,7 @@ def perform(kind, loc, world, opname, old_cpv, new_key):
         oldpkg = [p for p in repo if p.cpvstr == old_cpv][0]
         op = repo.operations.uninstall(oldpkg) if opname == "uninstall" else repo.operations.replace(oldpkg, newpkg)
     if kind == "vdb" and opname != "uninstall":
-        op.add_data(world.domain)
+        op.add_data(world.domain_for(new_key))
     return op.finish()
 
 
@@ -434,20 +460,20 @@ def gen_scenario(rng, kind):
     old_cpv = None
     new_key = None
     if opname == "install":
-        new_key = (cpv, rng.choice("AB"))
+        new_key = (cpv, rng.choice("ABC"))
     elif opname == "uninstall":
         installed.append((cpv, rng.choice("AB")))
         old_cpv = cpv
     elif opname == "replace-same":
         v = rng.choice("AB")
         installed.append((cpv, v))
-        old_cpv, new_key = cpv, (cpv, "B" if v == "A" else "A")
+        old_cpv, new_key = cpv, (cpv, rng.choice([x for x in "ABC" if x != v]))
     else:
         cand = [c for c in cpvs if c[0] == cat and c[1].split("-")[0] == pf.split("-")[0] and c[1] != pf]
         o = rng.choice(cand)
         installed = [k for k in installed if k[0] != o[0] + "/" + o[1]]
         installed.append((o[0] + "/" + o[1], rng.choice("AB")))
-        old_cpv, new_key = o[0] + "/" + o[1], (cpv, rng.choice("AB"))
+        old_cpv, new_key = o[0] + "/" + o[1], (cpv, rng.choice("ABC"))
     pool = LEFTOVERS[:4] if kind == "vdb" else ["lockfile", "stale-bintmp"]
     leftovers = sorted(set(rng.sample(pool, rng.choice([0, 0, 1, 1, 2, len(pool)]))))
     rng.shuffle(installed)
@@ -483,7 +509,43 @@ def run(ctx):
     world = World()
     obs = CrashObserver.get()
     pending = []
+    followups = []
     hidden_py = _hidden_rules()
+
+    def follow_up_install(sc, ev, copy, crashed_key):
+        cpv = crashed_key[0]
+        cat, pf = cpv.split("/")
+        other = tuple([cpv, rng.choice([v for v in "ABC" if v != crashed_key[1]])])
+        desc = dict(sc, crash_before=list(ev), follow_up_build=list(other))
+        try:
+            store = [[n, {"file": o[1]} if o[0] == "file" else {"dir": [list(x) for x in o[1]]}]
+                     for n, o in sorted(raw_category(os.path.join(copy, cat)).items())]
+            listed = fresh_view("vdb", copy)
+            try:
+                perform("vdb", copy, world, "replace" if cpv in listed else "install", cpv, other)
+            except Exception as e:
+                ctx.violation(desc, f"follow-up {'replace' if cpv in listed else 'install'} after the crash raised {type(e).__name__}: {e}")
+                return
+            ref_raw, ref_attrs = world.reference("vdb", other)
+            got_attrs = fresh_view("vdb", copy).get(cpv)
+            got_raw = raw_category(os.path.join(copy, cat)).get(pf)
+            ctx.count("crash_followup_installs")
+            if got_attrs != ref_attrs:
+                bad = {a: ((got_attrs or {}).get(a), ref_attrs.get(a)) for a in ref_attrs if (got_attrs or {}).get(a) != ref_attrs.get(a)}
+                ctx.violation(desc, f"after a crash and a complete re-install from another build the entry reads back as a mix of both builds "
+                                    f"(got, clean install): {bad}")
+            bad = entry_diff(got_raw, ref_raw)
+            if bad:
+                ctx.violation(desc, f"after a crash and a complete re-install from another build the entry is not exactly that build's metadata: {bad}")
+            files = [[f, (dict(got_raw[1]).get(f, d) if got_raw and f == "COUNTER" else d)] for f, d in ref_raw[1]]
+            req = {"cmd": "c29.run", "store": store, "files": files}
+            if cpv in listed:
+                req.update(kind="vdb-replace", old=pf, new=pf)
+            else:
+                req.update(kind="vdb-install", name=pf)
+            followups.append((desc, req, pf, sorted(map(tuple, got_raw[1])) if got_raw and got_raw[0] == "dir" else None))
+        finally:
+            shutil.rmtree(copy, ignore_errors=True)
 
     def run_scenario(sc):
         kind, opname = sc["kind"], sc["op"]
@@ -496,9 +558,17 @@ def run(ctx):
         cdir = os.path.join(loc, cat)
         points = []    # (event, attribute-level fresh view, file-level category snapshot, listed cpvs)
 
+        crash_copies = []   # (event, copy of the whole repository) for a sample of crash points
+
         def probe(ev, paths):
             view = fresh_view(kind, loc)
             points.append([ev, view, raw_category(cdir)])
+            if kind == "vdb" and sc["new"] and len(crash_copies) < follow_budget and \
+                    (len(points) in sample_at or (ev[0] == "rename" and len(crash_copies) < follow_budget)):
+                dst = os.path.join(world.root, "crash%d" % world.n)
+                world.n += 1
+                shutil.copytree(loc, dst, symlinks=True)
+                crash_copies.append((ev, dst))
             # a truncating open of an existing file: the state right after the open is a crash point of its own
             if ev[0] == "open-trunc" and paths[0] and os.path.isfile(paths[0]) and os.path.getsize(paths[0]) > 0:
                 st = os.stat(paths[0])
@@ -512,6 +582,8 @@ def run(ctx):
                         f.write(saved)
                     os.utime(paths[0], ns=(st.st_atime_ns, st.st_mtime_ns))
 
+        follow_budget = ctx.n(2, 4)
+        sample_at = {rng.randrange(4, 40), rng.randrange(40, 75)} if ctx.quick() else {rng.randrange(2, 25), rng.randrange(25, 50), rng.randrange(50, 80)}
         old_view = fresh_view(kind, loc)
         old_raw = raw_category(cdir)
         new_key = tuple(sc["new"]) if sc["new"] else None
@@ -548,11 +620,15 @@ def run(ctx):
                 if k != (new_key[0] if new_key else None) and new_view[k] != old_view[k]:
                     ctx.violation(sc, f"{opname} changed the metadata of the untouched package {k}")
             if new_key:
-                src = pkg_attrs(world.src[new_key + (("bin",) if kind == "binpkg" else ())])
+                ref_raw, ref_attrs = world.reference(kind, new_key)
                 got = new_view[new_key[0]]
-                bad = {a: (got.get(a), src.get(a)) for a in ("fullslot", "description", "eapi", "keywords") if got.get(a) != src.get(a)}
-                if bad or any(str(v).startswith("ERR:") for v in got.values()):
-                    ctx.violation(sc, f"the new entry {new_key[0]} does not carry the package's metadata: {bad or got}")
+                if got != ref_attrs:
+                    bad = {a: (got.get(a), ref_attrs.get(a)) for a in set(got) | set(ref_attrs) if got.get(a) != ref_attrs.get(a)}
+                    ctx.violation(sc, f"the new entry {new_key[0]} does not read back as this build's metadata (got, clean install): {bad}")
+                if kind == "vdb":
+                    bad = entry_diff(new_raw.get(new_key[0].split("/")[1]), ref_raw)
+                    if bad:
+                        ctx.violation(sc, f"the new entry {new_key[0]} is not exactly the metadata of this build: {bad}")
 
         # ---- every crash point (edge C, part 2): old or new, with the two open finding classes recognised exactly
         gap = both = None
@@ -576,6 +652,10 @@ def run(ctx):
                        if view.get(k) != old_view.get(k) and view.get(k) != new_view.get(k)}
                 ctx.violation(sc, f"crash before {ev}: a fresh view shows neither the old nor the new state: {odd or sorted(view)}")
         ctx.case(sc, nontrivial=changed, key=repr((kind, opname, sorted(map(tuple, sc["installed"])), sc["leftovers"], sc["old"], sc["new"])))
+
+        # ---- after a crash: a complete follow-up install/replace of the same cpv from ANOTHER build must yield exactly that build
+        for ev, copy in crash_copies:
+            follow_up_install(sc, ev, copy, new_key)
 
         # ---- material for edge A
         listed_seq = []
@@ -603,14 +683,20 @@ def run(ctx):
 
     try:
         scenarios = corpus()
-        nv, nb = ctx.n(8, 250), ctx.n(10, 250)
+        nv, nb = ctx.n(5, 170), ctx.n(5, 150)
         scenarios += [gen_scenario(rng, "vdb") for _ in range(nv)] + [gen_scenario(rng, "binpkg") for _ in range(nb)]
         for sc in scenarios:
             run_scenario(sc)
     finally:
+        world_refs = dict(world.refs)
         world.close()
 
     # ---- edge A: the Lean model on the abstracted initial state
+    def model_files(sc, new_raw, newname):
+        ref_raw, _ = world_refs[("vdb", tuple(sc["new"]))]
+        actual = dict(new_raw[newname][1]) if newname in new_raw and new_raw[newname][0] == "dir" else {}
+        return [[f, actual.get(f, d) if f == "COUNTER" else d] for f, d in ref_raw[1]]
+
     reqs = []
     for sc, old_raw, new_raw, _, _ in pending:
         kind, opname = sc["kind"], sc["op"]
@@ -622,11 +708,11 @@ def run(ctx):
         oldname = sc["old"].split("/")[1] + ext if sc["old"] else None
         if kind == "vdb":
             if opname == "install":
-                req.update(kind="vdb-install", name=newname, files=[list(x) for x in new_raw[newname][1]])
+                req.update(kind="vdb-install", name=newname, files=model_files(sc, new_raw, newname))
             elif opname == "uninstall":
                 req.update(kind="vdb-uninstall", name=oldname)
             else:
-                req.update(kind="vdb-replace", old=oldname, new=newname, files=[list(x) for x in new_raw[newname][1]])
+                req.update(kind="vdb-replace", old=oldname, new=newname, files=model_files(sc, new_raw, newname))
         else:
             tmp = ".tmp.%d.%s" % (os.getpid(), newname) if newname else None
             if opname == "install":
@@ -657,12 +743,37 @@ def run(ctx):
         mvis = [[o[0]] + o[1:-1][: (2 if o[0] == "rename" else 1)] for o in rep["ops"] if not o[-1] and o[0] != "noop"]
         if vis_events != mvis:
             ctx.mismatch(sc, f"operations on listed entries: implementation {vis_events} vs Lean model {mvis}")
+    for (desc, req, pf, got), rep in zip(followups, ctx.model([f[1] for f in followups])):
+        if not isinstance(rep, dict):
+            ctx.mismatch(desc, f"driver answered {rep!r}")
+            continue
+        final = dict((n, sorted(map(tuple, fs))) for n, fs in rep["views"][-1])
+        if final.get(pf) != got:
+            short = lambda e: None if e is None else sorted(set(x[0] for x in e))
+            ctx.mismatch(desc, f"entry after the follow-up install from the crash state: implementation files {short(got)} vs Lean model "
+                               f"{short(final.get(pf))} (digests differ or file sets differ)")
     # the hidden-name rule itself, model vs python mirror vs real listing (the mirror is what classified the real events)
     probe_names = ["foo-1", ".tmp.foo-1", ".tmp.foo-1.unmerge", "-MERGING-foo-1", "foo-1.lockfile", "foo-1.tbz2", ".tmp.12.foo-1.tbz2",
                    "foo-1.TBZ2", "foo-1.tbz2.lockfile", "foo-1.tar", "tmp.foo-1", "x.tmp.foo-1"]
     for n, rep in zip(probe_names, ctx.model([{"cmd": "c29.hidden", "name": n} for n in probe_names])):
         if rep != [hidden_py["vdb"](n), hidden_py["binpkg"](n)]:
             ctx.mismatch({"name": n}, f"hidden-name rule: model {rep}, harness mirror {[hidden_py['vdb'](n), hidden_py['binpkg'](n)]}")
+
+
+def entry_diff(got, ref):
+    """difference between a vdb entry and the clean reference entry of the same build (COUNTER holds the install time)"""
+    if got is None or got[0] != "dir":
+        return {"entry": "missing"}
+    g, r = dict(got[1]), dict(ref[1])
+    out = {}
+    if set(g) - set(r):
+        out["stale files"] = sorted(set(g) - set(r))
+    if set(r) - set(g):
+        out["missing files"] = sorted(set(r) - set(g))
+    diff = sorted(f for f in set(g) & set(r) if g[f] != r[f] and f != "COUNTER")
+    if diff:
+        out["different content"] = diff
+    return out
 
 
 def _top(rel, cat):
